@@ -18,7 +18,7 @@ RULE = ("48 policy combinations x int/str/float labels x n_jobs in {1,3} x histo
         "remove_arm (incl. before the first fit and re-adding a removed label), fit, partial_fit, warm_start with predict / "
         "predict_expectations on m in {none,1,2,3,5,8} rows; non-trivial = history with >=1 add and >=1 remove each followed "
         "by a query; distinct = (combo, labels, n_jobs, op skeleton)")
-BUDGET = {"quick": {"cases": 48 * 8, "shards": 8}, "thorough": {"cases": 48 * 104, "shards": 16, "wall_s": 2700}}
+BUDGET = {"quick": {"cases": 48 * 8, "shards": 16}, "thorough": {"cases": 48 * 104, "shards": 16, "wall_s": 3600}}
 MIN = {"quick": {"evaluations": 1000, "nontrivial": 60, "counters": {"c08_predict": 400, "c08_expectations": 400}},
        "thorough": {"evaluations": 15000, "nontrivial": 1000, "counters": {"c08_predict": 5000, "c08_expectations": 5000}}}
 ASSUMPTIONS = ["homogeneous arm labels (numpy coerces mixed lists before the library sees them)",
